@@ -17,11 +17,21 @@ ulimit -v 60000000 2>/dev/null || true
 
 mkdir -p harness/bin evidence replays
 BIN="harness/bin/verif.$$"
-trap 'rm -f "$BIN"' EXIT
+MODARGS=""
+# VERIF_REPO (default /repo) lets a change be evaluated in a scratch worktree
+# without touching /repo: an alternate go.mod replaces the module by that tree.
+# Registered commands never set it.
+if [ -n "${VERIF_REPO:-}" ] && [ "$VERIF_REPO" != "/repo" ]; then
+  export VERIF_MODFILE="$VERIF_ROOT/harness/bin/go.$$.mod"
+  sed "s#=> /repo#=> $VERIF_REPO#" harness/go.mod > "$VERIF_MODFILE"
+  cp harness/go.sum "${VERIF_MODFILE%.mod}.sum"
+  MODARGS="-modfile=$VERIF_MODFILE"
+fi
+trap 'rm -f "$BIN" "${VERIF_MODFILE:-/nonexistent}" "${VERIF_MODFILE:+${VERIF_MODFILE%.mod}.sum}"' EXIT
 
 build() {
   # rebuilds from /repo's current working tree: go.mod replaces the module by /repo
-  (cd harness && go build -o "../$BIN" ./cmd/verif) 2> "harness/bin/build.$$.log"
+  (cd harness && go build $MODARGS -o "../$BIN" ./cmd/verif) 2> "harness/bin/build.$$.log"
   rc=$?
   if [ $rc -ne 0 ]; then
     echo "INFRASTRUCTURE ERROR: harness does not build against /repo's working tree" >&2
